@@ -698,7 +698,7 @@ func ruleC14Immediate(c *Ctx) {
 // ---- C20 -------------------------------------------------------------------------------------
 
 func ruleC20Cell(c *Ctx) {
-	c.Doc("c20.cell", "the functions registered as setvar / getvar: setvar guards arity 2, performs exactly one map update on options.vars with key = text of args[0] (the same %v conversion getvar uses) and value args[1], and returns Ommit (no column); getvar guards arity 1, looks the same key conversion up in options.vars and returns the found value, NULL when absent")
+	c.Doc("c20.cell", "the functions registered as setvar / getvar: setvar guards arity 2, performs exactly one map update on options.vars with key = TextOf(args[0]) (the decimal text, the same conversion getvar uses) and value args[1], and returns Ommit (no column); getvar guards arity 1, looks the same key conversion up in options.vars and returns the found value, NULL when absent")
 	c.NotDecidedClause("C20: register semantics over concrete histories; behaviour when variables are not enabled (nil map)")
 	set, _ := c.registered("setvar")
 	get, _ := c.registered("getvar")
@@ -706,9 +706,12 @@ func ruleC20Cell(c *Ctx) {
 		c.Unknown("c20.cell", "setvar/getvar", "-", "anchor lost: setvar/getvar are not registered")
 		return
 	}
+	// the name of a register is the decimal text of the argument: TextOf(args[k]). The %v text writes a float64 from a
+	// million up with an exponent, so that SETVAR(id, …) with a numeric id column and GETVAR('1000000') named two
+	// different registers (and the caller's map held the value under "1e+06")
 	keyConv := func(t *Term, idx string) bool {
-		a, ok := callArgs(t, "fmt.Sprintf")
-		return ok && len(a) == 2 && a[0].Name == `"%v"` && a[1].Op == "varargs" && len(a[1].Args) == 1 && a[1].Args[0].Op == "index" && a[1].Args[0].Args[0].Op == "param" && a[1].Args[0].Args[1].Name == idx
+		a, ok := callArgs(t, "TextOf")
+		return ok && len(a) == 1 && a[0].Op == "index" && a[0].Args[0].Op == "param" && a[0].Args[1].Name == idx
 	}
 	{
 		c.Fn(c.P.funcKey(set))
@@ -731,7 +734,7 @@ func ruleC20Cell(c *Ctx) {
 						why = append(why, "setvar writes "+e.Args[0].String()+", not options.vars")
 					}
 					if !keyConv(e.Args[1], "0") {
-						why = append(why, "setvar's key is not the %v text of args[0]: "+e.Args[1].String())
+						why = append(why, "setvar's key is not the decimal text (TextOf) of args[0]: "+e.Args[1].String())
 					}
 					if !(e.Args[2].Op == "index" && e.Args[2].Args[0].Op == "param" && e.Args[2].Args[1].Name == "1") {
 						why = append(why, "setvar stores "+e.Args[2].String()+", not args[1]")
@@ -769,7 +772,7 @@ func ruleC20Cell(c *Ctx) {
 			for k := range p.Asg {
 				if tb.Seen[k] == "found" {
 					if !keyConv(p.KeyTerm[k].Args[0].Args[1], "0") {
-						why = append(why, "getvar's key is not the %v text of args[0]")
+						why = append(why, "getvar's key is not the decimal text (TextOf) of args[0]")
 					}
 				}
 			}
